@@ -1,2 +1,4 @@
 import IRModel.Mce
+import IRModel.Bits
 import IRModel.Props.C16
+import IRModel.Props.C19
